@@ -926,4 +926,193 @@ Section Proofs.
       cbn in Hrun. destruct (sstep dlv s1 e) as [s2|] eqn:E2; [|discriminate]. injection Hrun as <-.
       eapply sstep_inv; eauto.
   Qed.
+
+  Lemma squiescent_empty tr s :
+    sinv tr s -> sunsub_free tr -> scrash_free tr -> 0 < s_cap s -> squiescent s -> sflight s = [].
+  Proof.
+    intros Hi Hu Hc Hcap Hq.
+    destruct (si_state _ _ Hi Hu) as (Eb & Es & Ecl & Hnr & _).
+    pose proof (si_alive _ _ Hi Hu Hc) as Hal.
+    assert (Hl : s_loop s = LIdle).
+    { destruct (s_loop s) eqn:El; try contradiction; auto.
+      specialize (Hq (SDone false) eq_refl). cbn [sstep] in Hq. rewrite El in Hq. discriminate. }
+    assert (Hcn : s_c s = []).
+    { specialize (Hq SRecv eq_refl). cbn [sstep] in Hq. rewrite Hl, Es in Hq.
+      destruct (s_c s) as [|m r]; [auto|]. destruct (dlv (m_body m)); discriminate. }
+    assert (Hin : s_in s = []).
+    { specialize (Hq SFeed eq_refl). cbn [sstep] in Hq. rewrite Hcn in Hq.
+      destruct (s_in s) as [|[m|] r]; [auto| |].
+      - destruct (s_cap s); [lia|]. cbn in Hq. discriminate.
+      - exfalso. apply Hnr. now left. }
+    unfold sflight. now rewrite Hcn, Hin.
+  Qed.
+
+  Lemma srun_cap tr : forall s s', srun dlv s tr = Some s' -> s_cap s' = s_cap s.
+  Proof.
+    induction tr as [|e tr IH]; intros s s' H; cbn in H; [now injection H as <-|].
+    destruct (sstep dlv s e) as [s1|] eqn:E; [|discriminate]. rewrite (IH _ _ H).
+    destruct e as [t b| | | | |err| |]; cbn [sstep] in E.
+    - now injection E as <-.
+    - destruct (s_in s) as [|[m|] r]; try discriminate; [destruct (_ <? _); [|discriminate]|]; now injection E as <-.
+    - destruct (s_loop s); try discriminate.
+      + destruct (s_c s).
+        * destruct (s_closed s); [|discriminate]. now injection E as <-.
+        * destruct (s_stop s); [now injection E as <-|]. destruct (dlv _); now injection E as <-.
+      + destruct (s_c s); [discriminate|]. now injection E as <-.
+    - destruct (s_loop s); try discriminate. destruct (s_stop s); [|discriminate]. now injection E as <-.
+    - destruct (s_loop s); try discriminate. destruct (s_c s); [|discriminate]. destruct (s_closed s); [|discriminate]. now injection E as <-.
+    - destruct (s_loop s); try discriminate. now injection E as <-.
+    - destruct (s_unsub s); try discriminate. now injection E as <-.
+    - destruct (s_unsub s); try discriminate. destruct (s_closed s); [|discriminate]. now injection E as <-.
+  Qed.
+
+  (** c07_single_worker_exact (STOMP) *)
+  Lemma stomp_exact cap tr s :
+    0 < cap -> srun dlv (sinit P topic cap) tr = Some s -> sunsub_free tr -> scrash_free tr ->
+    (exists rest, owed dlv topic 0 (spubs tr) = s_log s ++ rest) /\
+    (squiescent s -> s_log s = owed dlv topic 0 (spubs tr)).
+  Proof.
+    intros Hcap Hrun Hu Hc. pose proof (srun_inv cap tr s Hrun) as Hi.
+    pose proof (si_order _ _ Hi Hu) as Ho. split.
+    - eexists. symmetry. exact Ho.
+    - intros Hq. rewrite (squiescent_empty tr s Hi Hu Hc) in Ho; auto.
+      + cbn in Ho. now rewrite app_nil_r in Ho.
+      + rewrite (srun_cap _ _ _ Hrun). exact Hcap.
+  Qed.
+
+  (** at most once, nothing invented, intact -- every history (STOMP) *)
+  Lemma stomp_at_most_once cap tr s :
+    srun dlv (sinit P topic cap) tr = Some s ->
+    (exists rest, Permutation (s_log s ++ rest) (owed dlv topic 0 (spubs tr))) /\
+    NoDup (map i_id (s_log s)) /\
+    (forall i, In i (s_log s) ->
+       exists b, nth_error (spubs tr) (i_id i) = Some (topic, b) /\ dlv b = Deliver (i_hdrs i) (i_val i)).
+  Proof.
+    intros Hrun. pose proof (srun_inv cap tr s Hrun) as Hi.
+    destruct (si_perm _ _ Hi) as [dropped [Hp _]].
+    assert (Hsub : exists rest, Permutation (s_log s ++ rest) (owed dlv topic 0 (spubs tr))) by (eexists; exact Hp).
+    split; [exact Hsub|]. destruct Hsub as [rest Hr]. split.
+    - pose proof (owed_nodup (spubs tr) 0) as Hn.
+      pose proof (Permutation_map i_id Hr) as Hr2. apply Permutation_sym in Hr2.
+      pose proof (Permutation_NoDup Hr2 Hn) as Hn2. rewrite map_app in Hn2. now apply NoDup_app_l in Hn2.
+    - intros i Hin.
+      assert (Ho : In i (owed dlv topic 0 (spubs tr))).
+      { eapply Permutation_in; [exact Hr|]. apply in_or_app. now left. }
+      apply owed_spec in Ho. destruct Ho as (t & b & Hn & _ & -> & Hd). rewrite Nat.sub_0_r in Hn. eauto.
+  Qed.
+
+  (** c07_bad_message_isolated (STOMP) *)
+  Lemma stomp_bad_message_isolated cap tr s :
+    0 < cap -> srun dlv (sinit P topic cap) tr = Some s -> sunsub_free tr -> scrash_free tr ->
+    loop_alive (s_loop s) /\
+    (squiescent s -> forall k b h p, nth_error (spubs tr) k = Some (topic, b) -> dlv b = Deliver h p ->
+                     In (mkInv k h p) (s_log s)).
+  Proof.
+    intros Hcap Hrun Hu Hc. pose proof (srun_inv cap tr s Hrun) as Hi. split.
+    - apply (si_alive _ _ Hi Hu Hc).
+    - intros Hq k b h p Hn Hd. destruct (stomp_exact cap tr s Hcap Hrun Hu Hc) as [_ He].
+      rewrite (He Hq). apply owed_spec. exists topic, b. cbn. rewrite Nat.sub_0_r. repeat split; auto. lia.
+  Qed.
+
+  (** c07_nothing_starts_after_unsubscribe (STOMP): once Unsubscribe has been called no invocation starts at all *)
+  Lemma sstep_stopped s e s' :
+    s_stop s = true -> sstep dlv s e = Some s' -> s_stop s' = true /\ s_log s' = s_log s.
+  Proof.
+    intros Hs E. destruct e as [t b| | | | |err| |]; cbn [sstep] in E.
+    - injection E as <-. auto.
+    - destruct (s_in s) as [|[m|] r]; try discriminate; [destruct (_ <? _); [|discriminate]|]; injection E as <-; auto.
+    - destruct (s_loop s); try discriminate.
+      + destruct (s_c s).
+        * destruct (s_closed s); [|discriminate]. injection E as <-. auto.
+        * rewrite Hs in E. injection E as <-. auto.
+      + destruct (s_c s); [discriminate|]. injection E as <-. auto.
+    - destruct (s_loop s); try discriminate. destruct (s_stop s); [|discriminate]. injection E as <-. auto.
+    - destruct (s_loop s); try discriminate. destruct (s_c s); [|discriminate]. destruct (s_closed s); [|discriminate]. injection E as <-. auto.
+    - destruct (s_loop s); try discriminate. injection E as <-. auto.
+    - destruct (s_unsub s); try discriminate. injection E as <-. auto.
+    - destruct (s_unsub s); try discriminate. destruct (s_closed s); [|discriminate]. injection E as <-. auto.
+  Qed.
+
+  Lemma stomp_nothing_after_unsubscribe tr2 : forall s1 s1' s2,
+    sstep dlv s1 SUnsubCall = Some s1' -> srun dlv s1' tr2 = Some s2 -> s_log s2 = s_log s1.
+  Proof.
+    intros s1 s1' s2 E Hrun.
+    assert (H1 : s_stop s1' = true /\ s_log s1' = s_log s1).
+    { cbn in E. destruct (s_unsub s1); try discriminate. injection E as <-. auto. }
+    destruct H1 as [Hs Hl]. rewrite <- Hl. clear E Hl. revert s1' Hs Hrun.
+    induction tr2 as [|e tr IH]; intros s Hs Hrun; cbn in Hrun; [now injection Hrun as <-|].
+    destruct (sstep dlv s e) as [s'|] eqn:E; [|discriminate].
+    destruct (sstep_stopped s e s' Hs E) as [Hs' Hl']. rewrite <- Hl'. now apply IH.
+  Qed.
+
+  (** Unsubscribe can always complete (the repaired loop keeps draining): from any state in which
+      Unsubscribe is waiting and the handler is not running, internal steps alone enable its return *)
+  Fixpoint sdrive (fuel : nat) (s : stomp P) : list sev :=
+    match fuel with
+    | O => []
+    | S f =>
+      if s_closed s then [] else
+      match sstep dlv s SFeed with
+      | Some s1 => SFeed :: sdrive f s1
+      | None =>
+        match s_loop s with
+        | LIdle => match sstep dlv s SStop with Some s1 => SStop :: sdrive f s1 | None => [] end
+        | LDrain => match sstep dlv s SRecv with Some s1 => SRecv :: sdrive f s1 | None => [] end
+        | _ => []
+        end
+      end
+    end.
+
+  Lemma stomp_unsubscribe_completes : forall fuel s,
+    s_unsub s = UWaiting -> s_stop s = true -> In SReceipt (s_in s) -> 0 < s_cap s ->
+    (s_loop s = LIdle \/ s_loop s = LDrain) ->
+    2 * length (s_in s) + length (s_c s) + (match s_loop s with LIdle => 1 | _ => 0 end) + 1 <= fuel ->
+    exists s', srun dlv s (sdrive fuel s) = Some s' /\ (s_closed s = false -> sstep dlv s' SUnsubRet <> None)
+               /\ Forall (fun e => s_internal e = true) (sdrive fuel s).
+  Proof.
+    induction fuel as [|fuel IH]; intros s Hu Hs Hr Hcap Hl Hf; [lia|].
+    cbn [sdrive]. destruct (s_closed s) eqn:Ecl.
+    { exists s. cbn. repeat split; auto. discriminate. }
+    destruct (s_in s) as [|x rest] eqn:Ei; [contradiction|].
+    destruct (sstep dlv s SFeed) as [s1|] eqn:Ef.
+    - pose proof Ef as Ef0. cbn [sstep] in Ef. rewrite Ei in Ef. destruct x as [m|].
+      + destruct (length (s_c s) <? s_cap s) eqn:Elt; [|discriminate]. injection Ef as Ef. subst s1.
+        destruct Hr as [Hr|Hr]; [discriminate|].
+        destruct (IH (mkStomp (s_topic s) (s_cap s) (s_bsub s) (s_next s) rest (s_c s ++ [m]) (s_closed s)
+                              (s_loop s) (s_stop s) (s_unsub s) (s_acks s) (s_log s))) as (s' & Hrun & Hret & Hint); try (cbn; auto; fail).
+        { cbn. rewrite app_length. cbn in *. destruct (s_loop s); lia. }
+        exists s'. cbn [srun]. rewrite Ef0. repeat split; auto.
+      + injection Ef as Ef. subst s1.
+        exists (mkStomp (s_topic s) (s_cap s) (s_bsub s) (s_next s) rest (s_c s) true
+                        (s_loop s) (s_stop s) (s_unsub s) (s_acks s) (s_log s)).
+        cbn [srun]. rewrite Ef0. destruct fuel; cbn [sdrive s_closed srun]; (repeat split; auto).
+        * intros _. cbn. rewrite Hu. discriminate.
+        * intros _. cbn. rewrite Hu. discriminate.
+    - (* sub.C is full: the loop must make room *)
+      cbn [sstep] in Ef. rewrite Ei in Ef. destruct x as [m|]; [|discriminate].
+      destruct (length (s_c s) <? s_cap s) eqn:Elt; [discriminate|].
+      apply Nat.ltb_ge in Elt.
+      destruct (s_c s) as [|c0 crest] eqn:Ec; [cbn in Elt; lia|].
+      destruct Hl as [Hl|Hl]; rewrite Hl.
+      + (* LIdle: take the stop branch *)
+        assert (Est : sstep dlv s SStop = Some (mkStomp (s_topic s) (s_cap s) (s_bsub s) (s_next s) (s_in s) (s_c s) (s_closed s)
+                                                      LDrain (s_stop s) (s_unsub s) (s_acks s) (s_log s))).
+        { cbn. now rewrite Hl, Hs. }
+        rewrite Est.
+        destruct (IH (mkStomp (s_topic s) (s_cap s) (s_bsub s) (s_next s) (s_in s) (s_c s) (s_closed s)
+                              LDrain (s_stop s) (s_unsub s) (s_acks s) (s_log s))) as (s' & Hrun & Hret & Hint); try (cbn; auto; fail).
+        { cbn. rewrite Ei. cbn. tauto. }
+        { cbn. rewrite Ei, Ec. rewrite Hl in Hf. cbn in *. lia. }
+        exists s'. cbn [srun]. rewrite Est. repeat split; auto.
+      + (* LDrain: receive and discard one *)
+        assert (Est : sstep dlv s SRecv = Some (mkStomp (s_topic s) (s_cap s) (s_bsub s) (s_next s) (s_in s) crest (s_closed s)
+                                                      LDrain (s_stop s) (s_unsub s) (s_acks s) (s_log s))).
+        { cbn. now rewrite Hl, Ec. }
+        rewrite Est.
+        destruct (IH (mkStomp (s_topic s) (s_cap s) (s_bsub s) (s_next s) (s_in s) crest (s_closed s)
+                              LDrain (s_stop s) (s_unsub s) (s_acks s) (s_log s))) as (s' & Hrun & Hret & Hint); try (cbn; auto; fail).
+        { cbn. rewrite Ei. cbn. tauto. }
+        { cbn. rewrite Ei. rewrite Hl in Hf. cbn in *. lia. }
+        exists s'. cbn [srun]. rewrite Est. repeat split; auto.
+  Qed.
 End Proofs.
